@@ -30,6 +30,71 @@ def run(chk):
         built = c18.rule_build_eval(chk, prefix="C17.build")       # each pipeline is selected, bound and exported on its own copy, in that order
         rule_isolate(chk, bp, shape=not built)
     rule_dup(chk)
+    rule_pipeline_definition_is_local(chk)
+
+def rule_pipeline_definition_is_local(chk):
+    """A pipeline definition only adds a pipeline: parse_pipeline is walked on a model module that has globals, constant
+    buffers and another pipeline, for a definition with a stage and every property from the table (DefaultBindGroup
+    among them). Afterwards everything the module held before - the globals' and constant buffers' bindings, the other
+    pipeline - is unchanged, and exactly one pipeline was added. (All pipelines of a file are compiled from this one
+    module: what one definition writes into shared declarations, every other pipeline sees.)"""
+    import interp as I
+    import c08
+    f = chk.facts
+    pp = f.fn("parse_pipeline", "rssl_typer")
+    if not pp:
+        chk.note("C17.isolate/definition: parse_pipeline not found; not decided")
+        return
+    opt = lambda v: I.Enum("Option", "None") if v is None else I.Enum("Option", "Some", {"0": v})
+    loc = lambda s_: I.Enum("Located", None, {"node": s_, "location": I.Opaque("loc")})
+    prop = lambda n_: I.Enum("PipelineProperty", None, {"property": loc(n_), "value": I.Opaque("value")})
+
+    def add_stage(a):
+        p_ = a[3].get() if isinstance(a[3], I.Ref) else a[3]
+        p_.fields["stages"].append(I.Enum("PipelineStage", None, {"stage": a[1]}))
+        return I.Enum("Result", "Ok", {"0": ()})
+    okv = lambda v: (lambda a: I.Enum("Result", "Ok", {"0": v}))
+    ext = {"add_stage": add_stage, "parse_blend_state": okv(I.Opaque("blend state")), "extract_string": okv("format"), "extract_uint32": okv(2),
+           "extract_cull_mode": okv(I.Opaque("cull mode")), "extract_winding_order": okv(I.Opaque("winding order"))}
+
+    def module():
+        binding = lambda: I.Enum("LanguageBinding", None, {"set": opt(None), "index": opt(None)})
+        g = lambda nm, intr=False: I.Enum("GlobalVariable", None, {"name": loc(nm), "type_id": I.Enum("TypeId", None, {"0": 3}), "storage_class": I.Enum("GlobalStorage", "Extern"), "lang_slot": binding(),
+                                                                    "api_slot": opt(None), "is_bindless": False, "is_intrinsic": intr, "static_sampler": opt(None), "init": opt(None)})
+        cb = I.Enum("ConstantBuffer", None, {"name": loc("CB"), "namespace": opt(None), "lang_binding": binding(), "api_binding": opt(None), "members": []})
+        other = I.Enum("PipelineDefinition", None, {"name": loc("Other"), "stages": [], "default_bind_group_index": 0, "graphics_pipeline_state": opt(None)})
+        return I.Enum("Module", None, {"pipelines": [other], "global_registry": [g("a"), g("b"), g("intrinsic", True)], "cbuffer_registry": [cb], "struct_registry": [], "flags": I.Opaque("flags")})
+    flat = lambda v: repr(v)
+    bad = None
+    n = 0
+    for stage in ("PixelShader", "ComputeShader"):
+        for p1 in c08.PIPELINE_PROPS:
+            m0 = module()
+            before = {k: flat(v) for k, v in m0.fields.items() if k != "pipelines"}
+            first = flat(m0.fields["pipelines"][0])
+            d = I.Enum("PipelineDefinition", None, {"name": loc("P"), "properties": [prop(stage), prop(p1)]})
+            ctx = I.Enum("Context", None, {"module": m0})
+            ip = I.Interp(f, max_depth=8, extern=ext)
+            ip.max_loop = 64
+            try:
+                r = ip.apply(pp, [d, ctx])
+            except I.Unknown as e:
+                if "panicking" in str(e):
+                    continue        # (aborts are C08.pipeline's business)
+                chk.unreadable("C17.isolate/definition", "parse_pipeline on a model module with globals and constant buffers", str(e)[:100], where(pp))
+                return
+            n += 1
+            after = {k: flat(v) for k, v in m0.fields.items() if k != "pipelines"}
+            changed = sorted(k for k in before if before[k] != after.get(k))
+            pls = m0.fields["pipelines"]
+            accepted = isinstance(r, I.Enum) and r.variant == "Ok"
+            if changed and bad is None:
+                bad = "`Pipeline P { %s = ..; %s = ..; }` changes the module's %s: a declaration shared by all pipelines is rewritten by one pipeline's definition, and every other pipeline is compiled from the rewritten module" % (stage, p1, ", ".join(changed))
+            elif (flat(pls[0]) != first or len(pls) != (2 if accepted else 1)) and bad is None:
+                bad = "`Pipeline P { %s = ..; %s = ..; }` (%s) leaves %d pipelines in the module%s" % (stage, p1, "accepted" if accepted else "refused", len(pls), ", the earlier pipeline changed" if flat(pls[0]) != first else "")
+    chk.ob("C17.isolate/definition", bad is None, bad or "%d definitions: only a pipeline is added, the shared declarations are untouched" % n, where(pp), sample={"definitions": n})
+    chk.floor("C17.floor/pipeline-definitions", n, 30, "pipeline definitions evaluated against a populated module", where(pp))
+
 
 def rule_select_eval(chk, comp):
     """compile() walked with scripted stages (compilemodel.py) on selection scenarios: which pipelines are handed to
